@@ -254,6 +254,15 @@ func genNewArgs(r *gen.RNG) (int64, int) {
 	if r.Chance(1, 4) {
 		return subnormalNew(r)
 	}
+	if r.Chance(1, 8) {
+		// significand padded with zeros next to an internal threshold (largest coefficient, word boundaries,
+		// x10 guards), at and around the largest exponent where the padding is what keeps the value finite
+		sig, k := r.ThresholdInt64()
+		if r.Bool() {
+			sig = -sig
+		}
+		return sig, k + r.Pick(ref.MaxExp, ref.MaxExp, ref.MaxExp, ref.MaxExp-1, ref.MaxExp+1, ref.MaxExp-r.Intn(40), 0, ref.MinExp, r.Range(-60, 60))
+	}
 	var sig int64
 	switch r.Intn(8) {
 	case 0:
